@@ -1304,7 +1304,8 @@ class SSHKey:
 
         """
 
-        write_file(filename, self.export_private_key(*args, **kwargs))
+        write_file(filename, self.export_private_key(*args, **kwargs),
+                   perms=0o600)
 
     def write_public_key(self, filename: FilePath, *args, **kwargs) -> None:
         """Write a public key to a file in the requested format
@@ -1338,7 +1339,8 @@ class SSHKey:
 
         """
 
-        write_file(filename, self.export_private_key(*args, **kwargs), 'ab')
+        write_file(filename, self.export_private_key(*args, **kwargs),
+                   'ab', perms=0o600)
 
     def append_public_key(self, filename: FilePath, *args, **kwargs) -> None:
         """Append a public key to a file in the requested format
